@@ -56,8 +56,41 @@ class H(object):
                     inputs = in2  # a violation outside the known regions
                 else:
                     verdict = 'unknown'
-        self.claims.append({'label': label, 'verdict': verdict,
-                            'inputs': inputs, 'known': known})
+        rec = {'label': label, 'verdict': verdict, 'inputs': inputs,
+               'known': known}
+        nalt = getattr(self.ob, 'alt_models', 0)
+        if verdict == 'sat' and nalt and not known:
+            # further counterexamples of the same claim (each differs from
+            # the earlier ones in at least one integer input by a factor):
+            # replay tries them when the first model does not reproduce --
+            # a model on the rounding boundary of a tolerance is decided
+            # differently by real and float arithmetic
+            alts = []
+            ctx.solver.push()
+            try:
+                ctx.solver.set('timeout', 3000)
+                ctx.solver.add(z3.Not(prop))
+                cur = inputs
+                for _ in range(nalt):
+                    diff = []
+                    for k, c in ctx.inputs.items():
+                        v = cur.get(k)
+                        if isinstance(v, int) and not isinstance(v, bool) \
+                                and z3.is_int(c):
+                            diff.append(z3.Or(c > 2 * abs(v) + 1,
+                                              c < -2 * abs(v) - 1))
+                    if not diff:
+                        break
+                    ctx.solver.add(z3.Or(*diff))
+                    if ctx._check() != 'sat':
+                        break
+                    cur = ctx.model_inputs(ctx.solver.model())
+                    alts.append(cur)
+            finally:
+                ctx.solver.set('timeout', ctx.query_timeout_ms)
+                ctx.solver.pop()
+            rec['alt_inputs'] = alts
+        self.claims.append(rec)
         return verdict
 
     def candidate(self, label, why):
@@ -522,6 +555,17 @@ def _replay_claim(ob, c, rec):
         # the concrete oracle fails on the real code for these inputs, under
         # another label than the symbolic claim's: a violation all the same
         hit = list(viol.items())[0]
+    if hit is None and not viol and c.get('alt_inputs'):
+        for alt in c['alt_inputs']:
+            try:
+                r2 = ob.real(alt)
+            except Exception:
+                continue
+            if r2.get('violations'):
+                inputs, r, viol = alt, r2, r2['violations']
+                entry['inputs'] = alt
+                hit = list(viol.items())[0]
+                break
     if hit is None and c.get('known'):
         # a recorded finding whose counterexample no longer fails on the
         # real code (repaired, possibly in a part the twin does not encode):
